@@ -1,4 +1,5 @@
 import BFL.Model.Fault
+import BFL.Model.FaultEntry
 import BFL.Proofs.Fault
 /-
 C12 — A correction that cannot use the measurement leaves the belief untouched.
@@ -255,6 +256,122 @@ theorem gpf_inplace_unguarded_not_restored :
       = Sym.pred := by
   decide
 
+/-! ### Public entry points; the Gaussian particle correction characterised exactly -/
+
+/-- The contract every correction step is proved to satisfy: a consulted call reporting
+    "unavailable" ⇒ the output is the predicted belief. -/
+def FaultContract (f : Script → β → β → R β) : Prop :=
+  ∀ s p c, anyFailed (f s p c).log = true → (f s p c).val = p
+
+/-- `GaussianCorrection::correct` / `PFCorrection::correct` add nothing to and take nothing from
+    the step: not skipped, the result *is* the step's (in particular nothing is done to the
+    output after an early return); skipped, the predicted belief is returned and the model is
+    not consulted at all.  Either way the contract carries over to the public entry point. -/
+theorem fault_identity_entry (skip : Bool) (f : Script → β → β → R β) (s : Script) (pred cin : β) :
+    (skip = false → correctEntry skip f s pred cin = f s pred cin) ∧
+    (skip = true → (correctEntry skip f s pred cin).val = pred ∧ (correctEntry skip f s pred cin).log = [] ∧
+        (correctEntry skip f s pred cin).script = s) ∧
+    (FaultContract f → FaultContract (correctEntry skip f)) := by
+  refine ⟨fun h => by simp [correctEntry, h], fun h => by simp [correctEntry, h], fun hf s p c h => ?_⟩
+  cases skip
+  · simp only [correctEntry] at h ⊢; exact hf s p c h
+  · simp [correctEntry]
+
+/-- The three Gaussian steps satisfy the contract (restating `fault_identity_kf/ukf/sukf`). -/
+theorem fault_contract_gauss (num : β → β → β) :
+    FaultContract (kfCorrect num) ∧ (∀ v, FaultContract (ukfCorrect v num)) ∧
+    (∀ ok k, FaultContract (sukfCorrect ok k num)) :=
+  ⟨fun s p c h => ((fault_identity_kf num s p c).1 h).1,
+   fun v s p c h => ((fault_identity_ukf v num s p c).1 h).1,
+   fun ok k s p c h => ((fault_identity_sukf ok k num s p c).1 (Or.inl h)).1⟩
+
+/-- **The known finding, stated exactly** (strengthens `fault_identity_gpf_partial`).  For every
+    wrapped correction satisfying the contract and every well-behaved likelihood:
+    * likelihood phase failed ⇒ the predicted set, whatever the wrapped correction did;
+    * wrapped correction failed, likelihood available ⇒ the output is *exactly* what a Gaussian
+      particle correction whose wrapped correction is switched off produces from the same
+      remaining answers — positions redrawn around, and weights updated against, the uncorrected
+      Gaussians (the harness's `partial` twin) — for every choice of the numeric parts. -/
+theorem gpf_wrapped_failure_is_partial_update (gauss : Script → β → β → R β) (hg : FaultContract gauss)
+    (sample : β → β) (lik : Script → R (Option γ)) (hl : LikSpec lik) (weigh : β → β → γ → β)
+    (s : Script) (pred cin : β) (hw : anyFailed (gauss s pred cin).log = true) :
+    (anyFailed (lik (gauss s pred cin).script).log = true →
+        (gpfCorrectW false gauss sample lik weigh s pred cin).val = pred) ∧
+    (anyFailed (lik (gauss s pred cin).script).log = false →
+        ∃ v, (lik (gauss s pred cin).script).val = some v ∧
+          (gpfCorrectW false gauss sample lik weigh s pred cin).val = weigh pred (sample pred) v ∧
+          (gpfCorrectW true gauss sample lik weigh (gauss s pred cin).script pred cin).val = weigh pred (sample pred) v) := by
+  have hv := hg s pred cin hw
+  have hspec := hl (gauss s pred cin).script
+  constructor
+  · intro h
+    have hn := hspec.2 h
+    simp [gpfCorrectW, gpfCorrect, correctEntry, hn]
+  · intro h
+    cases hval : (lik (gauss s pred cin).script).val with
+    | none => rw [hspec.1 hval] at h; cases h
+    | some v =>
+      refine ⟨v, rfl, ?_, ?_⟩
+      · simp [gpfCorrectW, gpfCorrect, correctEntry, hval, hv]
+      · simp [gpfCorrectW, gpfCorrect, correctEntry, hval]
+
+/-- In the free (symbolic) instance the partial theorem is tight: the Gaussian particle
+    correction returns the predicted set **iff** the likelihood phase failed — for every wrapped
+    correction (skipped or not), every well-behaved likelihood, every script, every output
+    container.  No failure inside the wrapped correction alone is ever enough. -/
+theorem fault_identity_gpf_exact (wskip : Bool) (gauss : Script → Sym → Sym → R Sym)
+    (lik : Script → R (Option γ)) (hl : LikSpec lik) (s : Script) (cin : Sym) :
+    (gpfCorrectW wskip gauss Sym.sampled lik (fun p c _ => Sym.weighed p c) s Sym.pred cin).val = Sym.pred ↔
+      anyFailed (lik (correctEntry wskip gauss s Sym.pred cin).script).log = true := by
+  have hspec := hl (correctEntry wskip gauss s Sym.pred cin).script
+  constructor
+  · intro h
+    cases hval : (lik (correctEntry wskip gauss s Sym.pred cin).script).val with
+    | none => exact hspec.1 hval
+    | some v => simp [gpfCorrectW, gpfCorrect, hval] at h
+  · intro h
+    have hn := hspec.2 h
+    simp [gpfCorrectW, gpfCorrect, hn]
+
+/-- **Counterexample family**: the finding is not peculiar to `measure()` and the Kalman
+    correction.  For each wrapped class and each call it consults, the model that reports
+    "unavailable" at that call only (everything available afterwards) makes the Gaussian
+    particle correction log a failed consulted call and return
+    `weigh pred (sample pred) value` — for all numeric parts. -/
+theorem fault_identity_gpf_counterexample_family (num : β → β → β) (sample : β → β) (weigh : β → β → γ → β)
+    (value : γ) (pred cin : β) :
+    (∀ s ∈ ([{ measure := [false] }, { predicted := [false] }, { innovation := [false] }, { noise := [false] }] : List Script),
+        anyFailed (gpfCorrectW false (kfCorrect num) sample (gaussLik value) weigh s pred cin).log = true ∧
+        (gpfCorrectW false (kfCorrect num) sample (gaussLik value) weigh s pred cin).val = weigh pred (sample pred) value) ∧
+    (∀ v, ∀ s ∈ ([{ measure := [false] }, { predicted := [false] }, { innovation := [false] }] : List Script),
+        anyFailed (gpfCorrectW false (ukfCorrect v num) sample (gaussLik value) weigh s pred cin).log = true ∧
+        (gpfCorrectW false (ukfCorrect v num) sample (gaussLik value) weigh s pred cin).val = weigh pred (sample pred) value) ∧
+    (∀ k, ∀ s ∈ ([{ measure := [false] }, { predicted := [false] }, { innovation := [false] }] : List Script),
+        anyFailed (gpfCorrectW false (sukfCorrect true k num) sample (gaussLik value) weigh s pred cin).log = true ∧
+        (gpfCorrectW false (sukfCorrect true k num) sample (gaussLik value) weigh s pred cin).val = weigh pred (sample pred) value) ∧
+    (∀ (k : Nat) (s : Script), anyFailed (gpfCorrectW false (sukfCorrect false k num) sample (scriptedLik value .gpf) weigh { s with lik := [] } pred cin).log
+              = !(pop s.measure).1 ∧
+        (gpfCorrectW false (sukfCorrect false k num) sample (scriptedLik value .gpf) weigh { s with lik := [] } pred cin).val
+          = weigh pred (sample pred) value) := by
+  refine ⟨?_, ?_, ?_, ?_⟩
+  · intro s hs
+    simp only [List.mem_cons, List.not_mem_nil, or_false] at hs
+    rcases hs with rfl | rfl | rfl | rfl <;>
+      simp [gpfCorrectW, gpfCorrect, correctEntry, kfCorrect, gaussLik, call, pop, anyFailed, Entry.failed]
+  · intro v s hs
+    simp only [List.mem_cons, List.not_mem_nil, or_false] at hs
+    rcases hs with rfl | rfl | rfl <;> cases v <;>
+      simp [gpfCorrectW, gpfCorrect, correctEntry, ukfCorrect, utMeasurement, utAdditiveMeasurement, utFunction,
+        gaussLik, call, pop, anyFailed, Entry.failed]
+  · intro k s hs
+    simp only [List.mem_cons, List.not_mem_nil, or_false] at hs
+    rcases hs with rfl | rfl | rfl <;>
+      simp [gpfCorrectW, gpfCorrect, correctEntry, sukfCorrect, gaussLik, call, pop, anyFailed, Entry.failed]
+  · intro k s
+    obtain ⟨fz, me, pr, inn, no, li⟩ := s
+    rcases me with _ | ⟨_ | _, me⟩ <;>
+      simp [gpfCorrectW, gpfCorrect, correctEntry, sukfCorrect, scriptedLik, call, pop, anyFailed, Entry.failed]
+
 /-! ### Histories, decorators, hand-over -/
 
 /-- **History lift**: if a correction leaves the belief untouched whenever one of its consulted
@@ -348,6 +465,50 @@ theorem sis_freeze_success_corrects (correct : Script → β → β → R β) (n
       normalise (correct { s with freeze := s.freeze.tail } pred cin).val := by
   obtain ⟨fz, me, pr, inn, no, li⟩ := s
   rcases fz with _ | ⟨_ | _, fz⟩ <;> simp_all [sisCorrectPhase, call, pop]
+
+/-! ### The SIS loop over any number of steps -/
+
+/-- **SIS, history level.**  In a run of any number of filtering steps on one filter — whatever
+    prediction, correction, normalisation and resampling compute, whatever earlier steps consumed
+    of the scripts — every step whose measurement acquisition failed hands the predicted set of
+    *that* step to the logger and to resampling, made no call other than `freeze`, and left the
+    remaining answers of every other method untouched (the correction was not attempted); every
+    other step ran the correction on its predicted set and normalised.  The run has one record
+    per step. -/
+theorem sis_history (predict : β → β) (correct : Script → β → β → R β) (normalise resample : β → β) :
+    ∀ (n : Nat) (first : Bool) (s : Script) (cor : β),
+      (sisRun predict correct normalise resample n first s cor).length = n ∧
+      ∀ st ∈ sisRun predict correct normalise resample n first s cor,
+        (st.script.freeze.head? = some false →
+            st.res.val = st.pred ∧ st.res.log = [⟨.sis, .freeze, false, true⟩] ∧
+            st.res.script = { st.script with freeze := st.script.freeze.tail }) ∧
+        (st.script.freeze.head? ≠ some false →
+            st.res.val = normalise (correct { st.script with freeze := st.script.freeze.tail } st.pred st.cin).val) := by
+  intro n
+  induction n with
+  | zero => intro first s cor; exact ⟨rfl, fun st hst => by simp [sisRun] at hst⟩
+  | succ n ih =>
+    intro first s cor
+    refine ⟨by simp [sisRun, (ih _ _ _).1], fun st hst => ?_⟩
+    simp only [sisRun, List.mem_cons] at hst
+    rcases hst with rfl | hst
+    · exact ⟨fun h => sis_freeze_failure_no_correct correct normalise s _ _ h,
+             fun h => sis_freeze_success_corrects correct normalise s _ _ h⟩
+    · exact (ih _ _ _).2 st hst
+
+/-- Steps are chained as in `SIS::filtering_step`: step 0 uses the initialised set without a
+    prediction; each later step predicts from the previous step's resampled result and starts
+    from the answers the previous step left. -/
+theorem sis_history_chain (predict : β → β) (correct : Script → β → β → R β) (normalise resample : β → β)
+    (n : Nat) (s : Script) (cor : β) :
+    sisRun predict correct normalise resample (n + 2) true s cor =
+      ⟨cor, cor, s, sisCorrectPhase correct normalise s cor cor⟩ ::
+      sisRun predict correct normalise resample (n + 1) false
+        (sisCorrectPhase correct normalise s cor cor).script
+        (resample (sisCorrectPhase correct normalise s cor cor).val) ∧
+    ∀ (s' : Script) (c' : β),
+      (sisRun predict correct normalise resample (n + 1) false s' c').head?.map (·.pred) = some (predict c') := by
+  exact ⟨rfl, fun s' c' => rfl⟩
 
 /-! ### Non-vacuity -/
 
